@@ -250,11 +250,22 @@ def check_seq(arg):
     inputs = dict(platform=platform, seed_acl=lines, ops=list(ops))
 
     def bad(kind, what, k):
-        fails.append(dict(key=f"bounded/ops:{kind}:{ops[k].split(':')[0]}", what=what, inputs=dict(inputs, failing_step=k),
+        shape = ":on-groups-built-from-text" if ops[k] == "sortnum" and ("reparse" in ops[:k] or "group" not in ops[:k]) else ""
+        fails.append(dict(key=f"bounded/ops:{kind}:{ops[k].split(':')[0]}" + shape, what=what, inputs=dict(inputs, failing_step=k),
                           cmd=("import sys; sys.path.insert(0, 'props'); import C17\n"
                                f"fails, _ = C17.check_seq({arg!r})\nprint([f['what'] for f in fails]); sys.exit(1 if fails else 0)\n")))
     for k, op in enumerate(ops):
-        if op == "sort":
+        if op == "sortnum":
+            # sorting by the numbers the entries carry now (no renumbering first): only meaningful when all rules are numbered, distinct and in order
+            seqs = [r.seq for r in model.rules]
+            if not seqs or min(seqs) <= 0 or seqs != sorted(set(seqs)):
+                continue
+            its = list(acl.items)
+            rnd.shuffle(its)
+            acl.items.clear()
+            acl.items.extend(its)
+            acl.sort()
+        elif op == "sort":
             # sort is modelled right after a renumbering: shuffle the top-level items first, sort must restore the numbered order
             st_, sp_ = [(10, 10), (5, 5), (95, 10)][(k + len(ops)) % 3]
             acl.resequence(st_, sp_)
@@ -315,6 +326,12 @@ def main(chk):
         for si in (0, {'ios': 3, 'nxos': 2}[platform]):        # the ACLs with headings (with and without entries before the first heading)
             for ops in itertools.product(STRUCT, repeat=n + 1):
                 cases.append((platform, si, ops))
+    # sorting by the present numbers after operations that rebuild the ACL (the effect of sort must not depend on them)
+    for platform in ("ios", "nxos"):
+        for si in (0, {'ios': 3, 'nxos': 2}[platform], 1):
+            for mid in ((), ("copy",), ("data",), ("port_nr:1",), ("protocol_nr:1",), ("platform:" + platform,), ("reparse",), ("copy", "copy")):
+                for pre in (("group",), ()):
+                    cases.append((platform, si, pre + ("resequence:5:5",) + mid + ("sortnum",)))
     rnd = random.Random(chk.seed)
     for _ in range(1500 if chk.tier == "quick" else 20000):
         platform = rnd.choice(["ios", "nxos"])
